@@ -122,19 +122,19 @@ Proof.
     destruct (sget r j) as [b|], (bget br j) as [[q l']|]; try (exfalso; exact Gj); cbn [fst snd];
       try (split; [exact R|reflexivity]).
     cbn [rel1] in Gi, Gj. destruct Gi as (Wa & Pa & Ra & Fa), Gj as (Wb & Pb & Rb & Fb).
-    destruct (N.eqb_spec p q) as [E|E].
-    + subst q. rewrite (k_merge_eq I a b (wf_wfs a Wa) (wf_wfs b Wb)) by congruence.
+    subst p q.
+    destruct (N.eqb_spec (k_p a) (k_p b)) as [E|E].
+    + rewrite (k_merge_eq I a b (wf_wfs a Wa) (wf_wfs b Wb) E).
       cbn [fst snd]. split; [|reflexivity]. apply rel_set; [exact R|]. cbn [rel1].
-      split; [apply wf_dn, wfs_dn; [destruct Wa as [(A & B & _) _]; congruence ..|]|].
-      { rewrite zip_max_length. rewrite (regs_length I a (wf_wfs a Wa)). congruence. }
-      split; [rewrite dn_p; exact Pa|]. split; [|apply Forall_app; split; assumption].
-      rewrite regs_dn, Ra, Rb, spec_regs_app. reflexivity.
-    + rewrite k_merge_none by congruence. cbn [fst snd]. split; [exact R|reflexivity].
+      split; [apply wf_dn, wfs_dn; [destruct Wa as [(A & B & _) _]; assumption ..|]|].
+      { rewrite zip_max_length. apply (regs_length I a (wf_wfs a Wa)). }
+      split; [reflexivity|]. split; [|apply Forall_app; split; assumption].
+      rewrite regs_dn, Ra, Rb, spec_regs_app, E. reflexivity.
+    + rewrite k_merge_none by exact E. cbn [fst snd]. split; [exact R|reflexivity].
   - (* KClone *)
     pose proof (rel_get r br R i) as G.
     destruct (sget r i) as [s|], (bget br i) as [b|]; try (exfalso; exact G); cbn [fst snd].
     + split; [|reflexivity]. apply rel_set; [exact R|exact G].
-    + destruct b as [? ?]. exfalso; exact G.
     + split; [exact R|reflexivity].
   - (* KRoundTrip *)
     pose proof (rel_get r br R i) as G.
@@ -144,7 +144,6 @@ Proof.
       rewrite (marshal_roundtrip I s W).
       apply rel_set; [|apply rel1_touch; exact G].
       apply rel_set_l; [exact R|]. rewrite Eb. apply rel1_touch; exact G.
-    + destruct b as [? ?]. exfalso; exact G.
     + split; [exact R|reflexivity].
   - (* KCount *)
     pose proof (rel_get r br R i) as G.
